@@ -426,4 +426,40 @@ def rule_column7(P) -> RuleResult:
     bases = [ast.unparse(b) for b in col.node.bases]
     if 'Sequence' not in bases:
         res.fail(col.fq, 'column7:sequence', 'Column must be a Sequence (iteration, len, indexing)', loc(col))
+    # iteration, unpacking, tuple(), `in`, reversed(), index() and count() come from the Sequence mixin, which derives them from
+    # __len__ and __getitem__ - the 7 fields decided above.  A definition of one of them in Column replaces that derivation.
+    field_terms = [{T('attr', (COL, f)), T('call', (show(VARS.args[i]), (COL,), ()))} for i, f in enumerate(FIELDS)]
+    overridden = []
+    for nm in ('__iter__', '__contains__', '__reversed__', 'index', 'count'):
+        f = col.methods.get(nm)
+        if f is None:
+            continue
+        overridden.append(nm)
+        if nm not in ('__iter__', '__reversed__'):
+            raise AnalysisError(f'{f.fq}: Column overrides the Sequence mixin method {nm}; its agreement with the 7 fields is not modelled')
+        for p in Engine(P, on_attr=on_attr).paths(f, {'self': COL}):
+            ys = [e[1] for e in p.events if e[0] == 'yield']
+            if p.outcome == 'return' and p.value is not None and not ys:
+                seq_ = e_items(p.value)
+                ys = seq_ if seq_ is not None else [p.value]
+            want = field_terms if nm == '__iter__' else list(reversed(field_terms))
+            if p.decisions or len(ys) != len(want) or any(y not in w for y, w in zip(ys, want)):
+                res.fail(f.fq, 'column7:iteration', f'Column.{nm} delivers `{", ".join(show(y)[:30] for y in ys[:8])}` ({len(ys)} items): iterating '
+                         f'or unpacking a description entry (tuple(col), `for x in col`, `a, b, c, d, e, f, g = col`) must deliver the same 7 '
+                         f'DB-API fields in the same order as col[0] ... col[6]', loc(f))
+            else:
+                res.ok({'method': nm, 'delivers': 'the 7 fields in order'})
+    if not overridden:
+        res.ok({'iteration': 'Sequence mixin over __len__ and __getitem__', 'overrides': 0})
     return res
+
+
+def e_items(v):
+    """Elements of a concrete sequence value (list display, tuple, iter(...) of one), else None."""
+    while isinstance(v, T) and v.op == 'call' and v.args[0] in ('iter', 'tuple', 'list') and len(v.args[1]) == 1:
+        v = v.args[1][0]
+    if isinstance(v, SList) and not v.opaque_tail and not v.tail:
+        return list(v.items)
+    if isinstance(v, T) and v.op == 'tuple':
+        return list(v.args)
+    return None
